@@ -393,3 +393,69 @@ def transitive_closure(ctx):
         ctx.oblige(f"post-contains-input#{n}", s, subset(aset.term, rt), replay={"mirror": "transitive_closure"})
     ctx.adopt_engine_obligations(source="property", replay={"mirror": "transitive_closure"})
     ctx.assume_note("termination of transitive_closure's fixpoint loop is not proved")
+
+
+@unit("C08.remove_superseed_from_list", "C08", "ngo.cleanup:CleanupTranslator._remove_superseed_from_list", fallback={"mirror": "corpus", "trait": "cleanup"})
+def remove_superseed_from_list(ctx):
+    """given that _superseeded(l, r) only answers True when l holding implies r holding (C08.superseeded), the list left
+    by _remove_superseed_from_list only contains literals of the original list and its conjunction is equivalent to
+    the conjunction of the original list (for every interpretation / assignment); the flag tells whether it changed"""
+    sem = sem_of(ctx)
+    m, ex = ctx.m, ctx.ex
+    wf = wf_of(ctx)
+    st = ctx.state()
+    body_ref, body0 = ctx.sym_list(st, "body", "ast")
+    _wf_list(ctx, st, body0, "body_literal", 1)
+    env, I = z3.Const("env", sem.Env), z3.Const("I", sem.Interp)
+    H = z3.Function("holds_lit", m.AST, sem.Env, sem.Interp, z3.BoolSort())
+    sup = z3.Function("superseeded", m.AST, m.AST, z3.BoolSort())
+
+    def superseeded_contract(e, s, a, k):
+        l, r = a[1], a[2]
+        b = sup(l.term, r.term)
+        s.assume(z3.Implies(b, z3.Implies(H(l.term, env, I), H(r.term, env, I))))
+        return [(s, SV(b, "bool"))]
+
+    ex.overrides["ngo.cleanup:CleanupTranslator._superseeded"] = superseeded_contract
+    ctx.assume_note("_superseeded is used through its contract (result => lhs holds implies rhs holds), proved in C08.superseeded for predicate literals")
+    ln, at = m.lst_funcs("ast")
+    LA = ("list", "ast")
+
+    def all_hold(t):
+        i = z3.Int(f"i!ah{fresh_id()}")
+        return z3.ForAll([i], z3.Implies(z3.And(0 <= i, i < ln(t)), H(at(t, i), env, I)), patterns=[at(t, i)])
+
+    def sub(t, t0):
+        i, j = z3.Int(f"i!sb{fresh_id()}"), z3.Int(f"j!sb{fresh_id()}")
+        return z3.ForAll([i], z3.Implies(z3.And(0 <= i, i < ln(t)), z3.Exists([j], z3.And(0 <= j, j < ln(t0), at(t0, j) == at(t, i)))), patterns=[at(t, i)])
+
+    def inv(c):
+        cur = ex.to_term(c.st, c.var("body"), LA)
+        upd = ex.as_z3_bool(ex.truth(c.st, c.var("updated")))
+        return [
+            sub(cur, body0.term),
+            z3.Implies(all_hold(body0.term), all_hold(cur)),
+            z3.Implies(all_hold(cur), all_hold(body0.term)),
+            z3.Implies(z3.Not(upd), cur == body0.term),
+            ln(cur) <= ln(body0.term),
+        ]
+
+    def variant(c):
+        cur = ex.to_term(c.st, c.var("body"), LA)
+        fix = ex.as_z3_bool(ex.truth(c.st, c.var("fix")))
+        return ln(cur) + z3.If(fix, 0, 1)
+
+    key = ("ngo.cleanup:CleanupTranslator._remove_superseed_from_list", 0)
+    ex.loop_specs[key] = LoopSpec(inv=inv, modifies={"body": LA, "fix": "bool", "updated": "bool"}, variant=None, name="removed literals are implied by remaining ones")
+    me = ctx.new_object(st, "CleanupTranslator", superseeds=st.alloc(SetObj(items=())), input_predicates=st.alloc(ListObj(items=())))
+    res = ctx.call(st, ctx.method("ngo.cleanup", "CleanupTranslator", "_remove_superseed_from_list", me), [body_ref])
+    ok, bad = returned(res)
+    ctx.cover("reach", st)
+    no_raise(ctx, "no-raise", res)
+    for n, (s, r) in enumerate(ok):
+        cur = ex.to_term(s, body_ref, LA)
+        ctx.oblige(f"post-equivalent#{n}", s, all_hold(cur) == all_hold(body0.term), replay={"mirror": "corpus", "trait": "cleanup"})
+        ctx.oblige(f"post-sublist#{n}", s, sub(cur, body0.term), kind="frame", replay={"mirror": "corpus", "trait": "cleanup"})
+        ctx.oblige(f"post-flag#{n}", s, z3.Implies(z3.Not(ex.as_z3_bool(ex.truth(s, r))), cur == body0.term), kind="frame", replay={"mirror": "corpus", "trait": "cleanup"})
+    ctx.adopt_engine_obligations(source="property", replay={"mirror": "corpus", "trait": "cleanup"})
+    ctx.inputs.clear()
